@@ -207,7 +207,7 @@ fn deep_chains(i: u64, st: &mut Stats) -> CaseResult {
     let cut = (i as usize / (vcore::gen::CHAIN_KINDS * DEPTHS.len())) % 3;
     let (mut input, _, _) = vcore::gen::chain(kind, depth);
     match cut { 1 => { let n = input.len() / 2; input.truncate(n) } 2 => { let n = input.len() - 1; input.truncate(n) } _ => {} }
-    run_all(&input, 0, st)?;
+    total::on_default_stack(|| run_all(&input, 0, st))?;
     st.nontrivial_enum(1);
     st.class(match depth { 500 => "chain/depth 500", 5000 => "chain/depth 5000", 20_000 => "chain/depth 20000", _ => "chain/depth 100000" });
     if depth == 500 && cut == 0 { st.sample(i, || format!("chain kind {} depth {}: {} through {} entry points", kind, depth, short_hex(&input), eps().len())) }
@@ -220,7 +220,7 @@ fn raw_input(g: &mut Gen, st: &mut Stats) -> CaseResult {
     let sel = g.byte() as usize % 6;
     let input = g.rest().to_vec();
     let start = start_positions(input.len())[sel];
-    let oks = run_all(&input, start, st)?;
+    let oks = if input.len() > 400 { total::on_default_stack(|| run_all(&input, start, st))? } else { run_all(&input, start, st)? };
     drop_check(&input)?;
     if oks < eps().len() && input.len() >= 2 { st.nontrivial(hash_of(&input)) }
     Ok(())
@@ -230,7 +230,7 @@ fn all_subs() -> Vec<Sub> {
     vec![
         Sub { prop: "C02", name: "raw-input", rule: "uniformly random tapes: first byte selects the start position, the rest is the input, through every entry point (same layout as the libFuzzer target and oversize replays)",
               kind: Kind::Random { quick: 20_000, thorough: 200_000, tape: 96, f: raw_input } },
-        Sub { prop: "C02", name: "deep-chains", rule: "nesting chains of nine shapes (tags, definite / indefinite arrays and maps in every position) x depths 500 / 5000 / 20 000 / 100 000 x {complete, cut in the middle, last byte missing} through every entry point: no panic, no stack overflow (reported through the supervisor), step budget 64*len+1024, memory 4 KiB + size_of::<T>() + 128*len",
+        Sub { prop: "C02", name: "deep-chains", rule: "nesting chains of nine shapes (tags, definite / indefinite arrays and maps in every position) x depths 500 / 5000 / 20 000 / 100 000 x {complete, cut in the middle, last byte missing} through every entry point: run on a thread with the default 2 MiB stack: no panic, no stack overflow (reported through the supervisor), step budget 64*len+1024, memory 4 KiB + size_of::<T>() + 128*len",
               kind: Kind::Enumerate { quick: 9 * 4 * 3, thorough: 9 * 4 * 3, f: deep_chains, complete_quick: true, complete_thorough: true } },
         Sub { prop: "C02", name: "short-inputs", rule: "every input of length <= 2 (thorough: <= 3) x every entry point (typed decode of ~120 registry types + 6 derived types, every accessor, iterators, skip, tokens, tokenizer past its end, datatype, probe, Size) ; for length <= 1 also from set_position in {mid, len, len+1, MAX-1, MAX}. Oracle per call: no panic, steps <= 64*len+1024, peak heap <= 4KiB + size_of::<T> + 128*len, position <= max(len, start), borrowed results inside the input; evaluations count calls; non-trivial = input non-empty",
               kind: Kind::Enumerate { quick: 1 + 256 + 65536, thorough: 1 + 256 + 65536 + (1 << 24), f: short_inputs, complete_quick: true, complete_thorough: true } },
